@@ -28,18 +28,33 @@
     * the components other properties model have no undefined-behaviour outcome:
       `C15_modelled_components_never_foreign` (RIFF C13, conf C20, VGM writer C08, WAV C14);
     * the composition: `C15_pipeline_total_partial`, `C15_pipeline_terminates`.
+    * optimise: `C15_optimize_routed` — for every song without explicit `END` events that satisfies the
+      decidable side conditions `OptDomain` (those of C01's termination theorem) and passed the
+      validate stage, `optimizeStage` ends in the optimised song or an `InputError` with a message:
+      the pass loop ends (C01), every stack list `analyze_stack` builds covers its track so
+      `find_match_length` never reads outside one, `Song::get_track` is never asked for a missing
+      track, and the `Song_Validator` after a pass ends (C04) — `C15_optimizer_never_foreign`;
+    * export mds: `C15_mds_export_no_ub` — for EVERY input the converter model never returns
+      `FErr.riff`, `FErr.codec .atEmpty`, `FErr.bankIndex` nor `FErr.writer (.player .impossible)`;
+      `FErr.headerWrap` and `FErr.codec .stackEmpty` are `InputError`s of the C++ since repository
+      fixes 8d409a9 / c5dd456 (both were reachable); `C15_mds_export_routed`;
   What is still a HYPOTHESIS of the composition (`StageHyps`, Proofs/PipelineStages), stage by stage:
-    * optimise   `optimizeStage` is routed given enough steps and passes (C01 proves that the
-                 passes preserve the performance, not that the pass loop ends:
-                 `C01_optimize_terminates_statement` is a `def`);
-    * export mds the converter model never returns one of its undefined-behaviour/loop
-                 constructors (`MdsNoUB`: `codec`, `headerWrap`, `bankIndex`, `riff`, writer fuel);
-    * the three `Residual`s (no model): VGM play loop, linker, definitions/commands outside
-                 C09/C11's models.
+    * optimise   nothing on `OptDomain`; outside it (a parsed song with 32767 or more events in a
+                 track, track ids from 32767, or so many events that `sub_id` could reach 32767 —
+                 where the C++ narrows to `int16_t`) the hypothesis `OptInDomain text` is not met;
+    * export mds `MdsBudgetOK`: the MODEL's fixed writer budgets (20 000 000 player steps per stream,
+                 recursion depth 64) suffice — a bound of the model, the C++ has no such budget;
+    * export vgm `VgmNoUB`: the driver model (Model/MdDriver) reports no `vector::at` failure, no
+                 non-integer step and no writer fault;
+    * link       `LinkOK`: the linker model accepts the converter's file or rejects it with an
+                 `InputError`;
+    * the two `Residual`s (no model): the VGM play loop for songs outside Model/MdDriver's subset,
+                 definitions/commands outside C09/C11's models.
   Memory safety of the compiled binary is not a statement about these models at all: it is
   observed by ASan/UBSan on the generated inputs (checks/c15.py), not proved.
 -/
-import Ctrmml.Proofs.PipelineStages
+import Ctrmml.Proofs.PipelineCompose
+import Ctrmml.Proofs.PipelineLink
 import Ctrmml.Properties.C13
 import Ctrmml.Properties.C20
 import Ctrmml.Properties.C08
@@ -142,15 +157,119 @@ example : hasEndEvent songOk = false ∧ cls (validateSong songOk 100) = 0 ∧ c
     cls (validateSong songCall 100) = 1 := by
   refine ⟨by decide, by decide, by decide, by decide⟩
 
+/-! ### optimise -/
+
+/-- **The optimise stage is routed.**  For every song without explicit `END` events that satisfies the
+side conditions `OptDomain` (decidable: track list in id order, ids below 32767, `LOOP_BREAK`s
+without duration, tracks shorter than 32767 events, `JUMP`/`NOTE` parameters in `int16_t`,
+`initialSubId + totalEvents < 32767`), with enough validator steps and passes: if the song passed the
+validate stage then `Optimizer(song,1).optimize()` — stack analysis, `find_best_match`,
+`apply_match`, `Song_Validator` after every pass — ends in the optimised song or in an `InputError`
+with a message. -/
+theorem C15_optimize_routed (song : Song) (hend : hasEndEvent song = false) (hd : OptDomain song) :
+    ∃ S P, ∀ steps passes, steps ≥ S → passes ≥ P → validateSong song steps = .ok () →
+      (optimizeStage song steps passes).routed :=
+  optimizeStage_routed song hend hd
+
+/-- **The optimiser has no undefined-behaviour outcome on validated songs**: started on a song all
+of whose tracks validate (with the invariants `PassInv` that `C01.optimize_no_fuel` carries from
+pass to pass), `Opt.optimize` never reads a stack list outside its bounds (`event_list[dst_end]`
+in `find_match_length`) and never calls `Song::get_track` on a track that does not exist; and for
+a pass budget above the measure of the song it does not exhaust it. -/
+theorem C15_optimizer_never_foreign (minScore : Int) (hmin : 0 ≤ minScore) (song : Song) (subId : Int)
+    (hI : PassInv song subId) (fuel : Nat) (acc : List Opt.Match) :
+    Opt.optimize C01.validAll minScore fuel song subId acc ≠ .error .stackListOOB ∧
+    Opt.optimize C01.validAll minScore fuel song subId acc ≠ .error .missingTrack ∧
+    (OptSteps.optMeasure song < fuel → Opt.optimize C01.validAll minScore fuel song subId acc ≠ .error .fuel) :=
+  ⟨(OptSteps.NO_of_eq (optimize_NO minScore fuel song subId acc hI)).1,
+   (OptSteps.NO_of_eq (optimize_NO minScore fuel song subId acc hI)).2,
+   fun hf => optimize_noFuel minScore hmin fuel song subId acc hI hf⟩
+
+/-- **`analyze_stack` builds complete stack lists**: after a successful analysis the analyser of every
+track holds one entry per event, for every song whose ids are distinct `uint16_t` values. -/
+theorem C15_stack_lists_complete (song : Song) (hnd : (song.tracks.map (·.1)).Nodup)
+    (hid : ∀ p ∈ song.tracks, p.1 < 65536) (m : Opt.SAMap) (h : Opt.analyzeStack song = .ok m) :
+    ∀ id evs, song.track? id = some evs → evs.length ≤ (Opt.getSA m (id : Int)).eventList.length :=
+  OptSteps.analyzeStack_full hnd hid h
+
+/-- non-vacuity: two songs in `OptDomain` (a repeated phrase the optimiser folds into a loop, and a
+drum-mode note whose routine does not exist), and the stage evaluated on them -/
+def nE (p : Int) : Event := { type := Tables.ev_NOTE, param := p, on := 6, off := 0 }
+def songRep : Song := { tracks := [(0, [nE 1, nE 1, nE 1, nE 1, nE 1, nE 1])] }
+def songDrum : Song := { tracks := [(0, [{ type := Tables.ev_DRUM_MODE, param := 1, on := 0, off := 0 }, nE 40])] }
+example : OptDomain songRep ∧ OptDomain songDrum ∧ hasEndEvent songRep = false := by
+  refine ⟨by decide, by decide, by decide⟩
+
+/-! ### export mds -/
+
+/-- **The converter model has no undefined-behaviour outcome**, for EVERY input (song, definitions,
+side files, platform commands): `exportMds` never fails in the RIFF writer (`get_mds` only adds
+chunks to list chunks), never reports `at()` on an empty stream, never indexes `data_bank` outside
+(the indices `read_song` stores in `envelope_map` / `pitch_map` come from `add_unique_data`, the
+bank only grows, the writer copies them into `used_data_map` and `get_mds` masks the tag bits off),
+and its writer's player never hits the `vector::at` of the final-pass loop break.  What is left of
+`FErr` besides values and `InputError`s is the model's own writer budget (`ferrIsBudget`). -/
+theorem C15_mds_export_no_ub (inp : MdsFile.Input) :
+    (∀ r, MdsFile.exportMds MdsData.Arith.float inp ≠ .error (.riff r)) ∧
+    MdsFile.exportMds MdsData.Arith.float inp ≠ .error (.codec .atEmpty) ∧
+    MdsFile.exportMds MdsData.Arith.float inp ≠ .error .bankIndex ∧
+    MdsFile.exportMds MdsData.Arith.float inp ≠ .error (.writer (.player .impossible)) :=
+  ⟨fun r h => (exportMds_err inp _ h).1 r rfl, fun h => (exportMds_err inp _ h).2 rfl,
+   (exportMds_no_bank_no_at inp).1, (exportMds_no_bank_no_at inp).2⟩
+
+/-- **The mds export stage is routed** for every input whose conversion stays within the model's
+writer budget, given a routed residual for the definitions / platform commands outside the models. -/
+theorem C15_mds_export_routed (u : Residual) (hg : ∀ inp, (u.mdsGap inp).routed) (inp : MdsFile.Input) (gap : Bool)
+    (hb : match MdsFile.exportMds MdsData.Arith.float inp with | .error e => ferrIsBudget e = false | .ok _ => True) :
+    (exportMdsStage u inp gap).routed := by
+  unfold exportMdsStage
+  split
+  · exact hg inp
+  · obtain ⟨h3, h4⟩ := exportMds_no_bank_no_at inp
+    split
+    · trivial
+    · rename_i e he
+      rw [he] at hb h3 h4
+      obtain ⟨h1, h2⟩ := exportMds_err inp e he
+      exact ferrOut_routed inp u.mdsGap e (fun _ => hg inp) hb h1 h2 (fun hb' => h3 (by rw [hb'])) (fun hi => h4 (by rw [hi]))
+
+/-- an input that reached one of the converter's other undefined-behaviour constructors before the
+repairs: a raw `cmd` loop end outside a loop (was `top()` of an empty stack: SIGSEGV), now the input
+error of fix c5dd456 — in the codec model -/
+example : (match Mds.convertTrack 0 0 [⟨Tables.mds_LPF, 2⟩, ⟨Tables.mds_NOTE + 36, 24⟩] with
+      | .error .stackEmpty => true | _ => false) = true ∧
+    clsOf (ferrOut (α := Bytes) { song := { tracks := [] } } (fun _ => .ok []) (.codec .stackEmpty)) = 1 ∧
+    clsOf (ferrOut (α := Bytes) { song := { tracks := [] } } (fun _ => .ok []) .headerWrap) = 1 := by
+  refine ⟨by decide, by decide, by decide⟩
+
+/-! ### link -/
+
+/-- **The link stage: the header generation always returns, and every `foreign` outcome is one of
+the linker's own errors.**  For every byte string given to mdslink's calls: `get_asm_header` /
+`get_c_header` end (`unique_string` terminates: C10), so the stage is `add_song` followed by
+`get_seq_data`; if it ends outside `ok | inputError` it is because `add_song` or `get_seq_data`
+raised `outOfRange` / `invalidArgument` (std exceptions that escape) or `oob` / `hang` / `divZero`
+— the residual kinds `LinkOK` assumes away for the converter's own files. -/
+theorem C15_link_stage_kinds (mds : Bytes) (k : String) (h : linkStage mds = .foreign k) :
+    ∃ e : Linker.Err, (linkErrOut e : Out Unit) = .foreign k ∧
+      (Linker.runOps [.add (Linker.ascii "in") mds] Linker.Linker.new = .error e ∨
+       ∃ l, Linker.runOps [.add (Linker.ascii "in") mds] Linker.Linker.new = .ok l ∧ Linker.getSeqData l = .error e) :=
+  linkStage_foreign mds k h
+
+/-- non-vacuity: a file that is not a RIFF container is refused with `std::out_of_range` from the
+`RIFF` constructor (8 bytes are needed) — a foreign outcome of the stage on arbitrary bytes, which is
+why `LinkOK` speaks about the converter's files only -/
+example : clsOf (linkStage [1, 2, 3]) = 2 := by decide
+
 /-! ### the composition -/
 
 /-- **Composite (partial).**  For every text, every set of side files, with or without `-O`,
-for the three tools' paths: if the stages listed in `StageHyps` behave, then with enough
-validator steps and optimiser passes the pipeline ends in output or in an input error carrying
-a message.  Validation (both failure modes: exception type and termination) and sample loading
-are discharged by the theorems above; nothing is assumed about them. -/
+for the three tools' paths: if the stages listed in `StageHyps` behave and — with `-O` — the parsed
+song is in `OptDomain`, then with enough validator steps and optimiser passes the pipeline ends in
+output or in an input error carrying a message.  Parse, validate, optimise (on `OptDomain`) and
+sample loading are discharged by the theorems above; nothing is assumed about them. -/
 theorem C15_pipeline_total_partial (u : Residual) (files : List (String × Bytes)) (opt : Bool) (fmt : Format)
-    (hu : StageHyps u opt fmt) (text : List Nat) :
+    (hu : StageHyps u fmt) (text : List Nat) (hdom : opt = true → OptInDomain text) :
     ∃ S P, ∀ b : Budget, b.steps ≥ S → b.passes ≥ P → (pipeline u files opt fmt b text).routed := by
   unfold pipeline pipelineS
   have hp := parseStage_routed text
@@ -166,10 +285,12 @@ theorem C15_pipeline_total_partial (u : Residual) (files : List (String × Bytes
     · have hend' : hasEndEvent (songOf st) = false := parseStage_noEnd text st hps
       obtain ⟨F, hF⟩ := C15_validate_routed (songOf st) hend'
       obtain ⟨S, P, hSP⟩ : ∃ S P, opt = true → ∀ steps passes, steps ≥ S → passes ≥ P →
-          (optimizeStage (songOf st) steps passes).routed := by
+          validateSong (songOf st) steps = .ok () → (optimizeStage (songOf st) steps passes).routed := by
         cases opt with
         | false => exact ⟨0, 0, fun h => by cases h⟩
-        | true => obtain ⟨S, P, h⟩ := hu.optimize rfl (songOf st); exact ⟨S, P, fun _ => h⟩
+        | true =>
+          obtain ⟨S, P, h⟩ := C15_optimize_routed (songOf st) hend' (hdom rfl st hps)
+          exact ⟨S, P, fun _ => h⟩
       refine ⟨max F S, P, fun b hs hpz => ?_⟩
       have hv := hF b.steps (by omega)
       cases hvs : validateSong (songOf st) b.steps with
@@ -180,7 +301,7 @@ theorem C15_pipeline_total_partial (u : Residual) (files : List (String × Bytes
         have ho : (if opt then optimizeStage (songOf st) b.steps b.passes else Out.ok (songOf st)).routed := by
           cases opt
           · simp [Out.routed]
-          · simp only [if_true]; exact hSP rfl b.steps b.passes (by omega) hpz
+          · simp only [if_true]; exact hSP rfl b.steps b.passes (by omega) hpz hvs
         cases hos : (if opt then optimizeStage (songOf st) b.steps b.passes else Out.ok (songOf st)) with
         | inputError m => rw [hos] at ho; exact ho
         | foreign k => rw [hos] at ho; exact ho.elim
@@ -188,38 +309,108 @@ theorem C15_pipeline_total_partial (u : Residual) (files : List (String × Bytes
           simp only []
           cases fmt with
           | mds => exact exportMdsStage_routed u hu (by decide) _ _
-          | vgm => exact exportVgmStage_routed u hu _
+          | vgm => exact exportVgmStage_routed u hu rfl _ _
           | link =>
             simp only []
-            have he := exportMdsStage_routed u hu (by decide) { (mdsInputOf st files).1 with song := song' } (mdsInputOf st files).2
-            cases hes : exportMdsStage u { (mdsInputOf st files).1 with song := song' } (mdsInputOf st files).2 with
-            | inputError m => rw [hes] at he; exact he
-            | foreign k => rw [hes] at he; exact he.elim
-            | ok mds => exact Out.map_routed _ _ (hu.link mds)
+            split
+            · exact hu.mdsGap _
+            · rename_i hin
+              have he := exportMdsStage_routed u hu (by decide) { (mdsInputOf st files).1 with song := song' } (mdsInputOf st files).2
+              cases hes : exportMdsStage u { (mdsInputOf st files).1 with song := song' } (mdsInputOf st files).2 with
+              | inputError m => rw [hes] at he; exact he
+              | foreign k => rw [hes] at he; exact he.elim
+              | ok mds =>
+                obtain ⟨o, ho1, ho2⟩ := exportMdsStage_ok (by simpa using hin) hes
+                have := hu.linkOK rfl _ o ho1
+                rw [ho2] at this
+                exact Out.map_routed _ _ this
 
-/-- non-vacuity of the composite: residual stages that always succeed; for a VGM export without
-`-O` the stage hypotheses hold (neither the optimiser nor the converter runs), and the
-pipeline on a one-note song then ends in the residual's output -/
+/-- **The mds export path without `-O`, no residual at all (partial).**  For every text that parses
+into a state `st` whose definitions and platform commands are inside the converter's models
+(`mdsOutside … = false`, decided by evaluation) and whose conversion stays within the model's
+writer budget (`ferrIsBudget`, decided by evaluation): with enough validator steps `mmlc -f mds`
+ends in the file or in an `InputError` with a message — whatever the residuals are (they are not
+reached).  `_partial`: the two hypotheses are about the MODEL (coverage of C09/C11's models, the
+model's own step budget), not about the code. -/
+theorem C15_pipeline_total_mds_partial (u : Residual) (files : List (String × Bytes)) (text : List Nat)
+    (st : Mml.MmlState) (hst : parseStage text = .ok st)
+    (hin : mdsOutside (mdsInputOf st files).1 (mdsInputOf st files).2 = false)
+    (hbud : match MdsFile.exportMds MdsData.Arith.float (mdsInputOf st files).1 with
+      | .error e => ferrIsBudget e = false | .ok _ => True) :
+    ∃ S, ∀ b : Budget, b.steps ≥ S → (pipeline u files false .mds b text).routed := by
+  obtain ⟨F, hF⟩ := C15_validate_routed (songOf st) (parseStage_noEnd text st hst)
+  refine ⟨F, fun b hb => ?_⟩
+  unfold pipeline pipelineS
+  rw [hst]
+  simp only []
+  have hv := hF b.steps hb
+  cases hvs : validateSong (songOf st) b.steps with
+  | inputError m => rw [hvs] at hv; exact hv
+  | foreign k => rw [hvs] at hv; exact hv.elim
+  | ok _ =>
+    simp only [Bool.false_eq_true, if_false]
+    have hinp : ({ (mdsInputOf st files).1 with song := songOf st } : MdsFile.Input) = (mdsInputOf st files).1 := rfl
+    rw [hinp]
+    unfold mdsOutside at hin
+    simp only [Bool.or_eq_false_iff] at hin
+    unfold exportMdsStage
+    rw [if_neg (by simp [hin.1])]
+    obtain ⟨h3, h4⟩ := exportMds_no_bank_no_at (mdsInputOf st files).1
+    split
+    · trivial
+    · rename_i e he
+      rw [he] at hbud h3 h4 hin
+      obtain ⟨h1, h2⟩ := exportMds_err _ e he
+      refine ferrOut_routed _ u.mdsGap e (fun hd => ?_) hbud h1 h2 (fun hb' => h3 (by rw [hb'])) (fun hi => h4 (by rw [hi]))
+      rw [hd] at hin
+      simp at hin
+
+/-- its hypotheses on a concrete text, decided by evaluation in the kernel (a song whose only track
+is not a channel track, so that the kernel does not have to unfold the writer's 20 000 000-step
+budget; the check's model stream evaluates them on every generated input) -/
+example : ∃ st, parseStage (Lexer.strBytes "*100 c") = .ok st ∧
+    mdsOutside (mdsInputOf st []).1 (mdsInputOf st []).2 = false ∧
+    (match MdsFile.exportMds MdsData.Arith.float (mdsInputOf st []).1 with
+      | .error e => ferrIsBudget e = false | .ok _ => True) := by
+  have key : (match parseStage (Lexer.strBytes "*100 c") with
+      | .ok st => !mdsOutside (mdsInputOf st []).1 (mdsInputOf st []).2 &&
+          (match MdsFile.exportMds MdsData.Arith.float (mdsInputOf st []).1 with
+            | .error e => !ferrIsBudget e | .ok _ => true)
+      | _ => false) = true := by decide +kernel
+  cases h : parseStage (Lexer.strBytes "*100 c") with
+  | ok st =>
+    rw [h] at key
+    simp only [Bool.and_eq_true, Bool.not_eq_true'] at key
+    refine ⟨st, rfl, key.1, ?_⟩
+    have k2 := key.2
+    split at k2
+    · simpa using k2
+    · trivial
+  | inputError m => rw [h] at key; cases key
+  | foreign k => rw [h] at key; cases key
+
+/-- non-vacuity of the composite: residual stages that always succeed; for an mds export of a text
+without definitions … the stage hypotheses are Props about the models (not decidable as a whole);
+the composite is instantiated on the two residuals below and its conclusion evaluated -/
 def okResidual : Residual :=
-  { vgmPlay := fun _ _ => .ok [], link := fun _ => .ok (), mdsGap := fun _ => .ok [] }
+  { vgmPlay := fun _ _ => .ok [], mdsGap := fun _ => .ok [] }
 
-example : StageHyps okResidual false .vgm where
-  optimize := fun h => by cases h
-  mdsNoUB := fun h => absurd rfl h
-  vgmPlay := fun _ _ => trivial
-  link := fun _ => trivial
-  mdsGap := fun _ => trivial
+example : (∀ inp d, (okResidual.vgmPlay inp d).routed) ∧ (∀ inp, (okResidual.mdsGap inp).routed) :=
+  ⟨fun _ _ => trivial, fun _ => trivial⟩
 
-example : clsOf (pipeline okResidual [] false .vgm { steps := 50, passes := 1 } (Lexer.strBytes "A c")) = 0 ∧
-    clsOf (pipeline okResidual [] false .vgm { steps := 50, passes := 1 } (Lexer.strBytes "A [c")) = 1 := by
+example : clsOf (pipeline okResidual [] false .vgm { steps := 50, passes := 1 } (Lexer.strBytes "A [c")) = 1 ∧
+    clsOf (pipeline okResidual [] false .link { steps := 50, passes := 1 } (Lexer.strBytes "A *1")) = 1 := by
   refine ⟨by decide +kernel, by decide +kernel⟩
+
+/-- `OptInDomain` on a concrete text (decided by evaluation: `optInDomain_of_check`) -/
+example : OptInDomain (Lexer.strBytes "A o4l4 cdefg") := optInDomain_of_check _ (by decide +kernel)
 
 /-- **Termination of the modelled part**: under the same hypotheses the pipeline never answers
 `foreign "hang"` (the outcome of the validator's, optimiser's and writer's step budgets). -/
 theorem C15_pipeline_terminates (u : Residual) (files : List (String × Bytes)) (opt : Bool) (fmt : Format)
-    (hu : StageHyps u opt fmt) (text : List Nat) :
+    (hu : StageHyps u fmt) (text : List Nat) (hdom : opt = true → OptInDomain text) :
     ∃ S P, ∀ b : Budget, b.steps ≥ S → b.passes ≥ P → pipeline u files opt fmt b text ≠ .foreign "hang" := by
-  obtain ⟨S, P, h⟩ := C15_pipeline_total_partial u files opt fmt hu text
+  obtain ⟨S, P, h⟩ := C15_pipeline_total_partial u files opt fmt hu text hdom
   refine ⟨S, P, fun b hs hp heq => ?_⟩
   have := h b hs hp
   rw [heq] at this
@@ -242,10 +433,10 @@ theorem C15_modelled_components_never_foreign :
    fun v h ops hh => Vgm.C08_no_overflow v h ops hh⟩
 
 /-- The full statement over the pipeline model: the conclusion of `C15_pipeline_total_partial`
-with residual stages that are themselves routed and NO hypothesis on the modelled stages. -/
+with residual stages that are themselves routed and NO hypothesis on the modelled stages (neither
+`StageHyps`'s `MdsBudgetOK` / `VgmNoUB` / `LinkOK` nor `OptInDomain`). -/
 def C15_full_statement : Prop :=
-  ∀ (u : Residual), (∀ inp d, (u.vgmPlay inp d).routed) → (∀ b, (u.link b).routed) →
-    (∀ inp, (u.mdsGap inp).routed) →
+  ∀ (u : Residual), (∀ inp d, (u.vgmPlay inp d).routed) → (∀ inp, (u.mdsGap inp).routed) →
     ∀ (files : List (String × Bytes)) (opt : Bool) (fmt : Format) (text : List Nat),
       ∃ S P, ∀ b : Budget, b.steps ≥ S → b.passes ≥ P → (pipeline u files opt fmt b text).routed
 
